@@ -29,6 +29,11 @@ ren('compiler.go','calAndSetShortCircuit','f','jump'); ren('compiler.go','calAnd
 ren('compiler.go','optimizeReduceNesting','children','flat'); ren('compiler.go','calAndSetParentIndex','queue','todo'); ren('compiler.go','calAndSetParentIndex','f','table')
 ren('compiler.go','calAndSetStackSize','prev','before')
 ren('util.go','Dump','rootIdx','top'); ren('util.go','Dump','childIdxes','kids'); ren('util.go','splitLinesOutsideStrings','start','from0')
+# session 3: behaviour-preserving edits that are not renames
+sub('parser.go', [(r'\treturn &astNode\{\n\t\tchildren: children,\n\t\tnode: &node\{\n\t\t\tflag:     operator,', '\treturn &astNode{\n\t\tchildren: append([]*astNode(nil), children...),\n\t\tnode: &node{\n\t\t\tflag:     operator,')])
+sub('parser.go', [(r'\tp.walk\(\)\n\treturn p.valNode\(t.val\), nil', '\ttext := t.val\n\tp.walk()\n\treturn p.valNode(text), nil')])
+sub('compiler.go', [(r'\t\tcase operator:\n\t\t\tf\[i\] = f\[before\] - int16\(n.childCnt\) \+ 1\n\t\tcase cond:\n\t\t\tif n.value == keywordIf \{\n\t\t\t\tf\[i\] = f\[before\] - 1\n\t\t\t\} else \{\n\t\t\t\tf\[i\] = f\[before\]\n\t\t\t\}',
+   '\t\tcase cond:\n\t\t\tif n.value == keywordIf {\n\t\t\t\tf[i] = f[before] - 1\n\t\t\t} else {\n\t\t\t\tf[i] = f[before]\n\t\t\t}\n\t\tcase operator:\n\t\t\tf[i] = f[before] + 1 - int16(n.childCnt)')])
 # parser.go: error message texts, a local of the list parser
 sub('parser.go', [(r'invalid compile format', 'malformed compile directive'), (r'(?<![.\w])strs\b','texts')])
 # variable.go / util.go
